@@ -112,19 +112,19 @@ var plans = map[string]*Plan{
 	},
 	"C19": {
 		Level:     "exploration",
-		Scenarios: []ScenPlan{{"lbstop", 30000, 600000}},
+		Scenarios: []ScenPlan{{"lbstop", 30000, 600000}, {"sysstop", 8000, 150000}},
 		QuickWallS: 120, ThoroughWallS: 1500,
-		Rule:        "Scenario lbstop: balancer with active probing (interval 2-6s, fast/slow/refusing/failing probe endpoints), Stop() at a drawn virtual instant (before the first probe, mid-probe, between ticks, at a tick) under a drawn interleaving, 1-3 repeated or concurrent Stop calls, optional traffic; oracle: Stop returns within one probe timeout, no probe after the first Stop returned, no WaitGroup Add racing Wait at zero.",
-		Real:        microReal, Stub: microStub, Assumptions: commonAssumptions,
-		ExpectProbes: []string{"repeated-stop"},
+		Rule:        "Scenario lbstop: balancer with active probing (interval 2-6s, fast/slow/refusing/failing probe endpoints), Stop() at a drawn virtual instant (before the first probe, mid-probe, between ticks, at a tick) under a drawn interleaving, 1-3 repeated or concurrent Stop calls, optional traffic; oracle: Stop returns within one probe timeout, no probe after the first Stop returned, no WaitGroup Add racing Wait at zero. Scenario sysstop: the real shutdownGracefully over simnet with 1-4 requests in flight (before headers, mid-body, longer than the timeout), optional active probing with slow probes, a second call; bounded return, in-flight requests that fit complete in full, no probe after return.",
+		Real:        append(append([]string{}, microReal...), "cmd/helios shutdownGracefully + net/http.Server.Shutdown (sysstop)"), Stub: append(append([]string{}, microStub...), "OS signal delivery (the shutdown branch is called directly; main() is not run)"), Assumptions: commonAssumptions,
+		ExpectProbes: []string{"repeated-stop", "shutdown-returned", "in-flight-at-shutdown", "second-shutdown"},
 	},
 	"C20": {
 		Level:     "exploration",
-		Scenarios: []ScenPlan{{"wspool", 40000, 800000}},
+		Scenarios: []ScenPlan{{"wspool", 40000, 800000}, {"sysws", 8000, 150000}},
 		QuickWallS: 120, ThoroughWallS: 1500,
-		Rule:        "Scenario wspool: the real WebSocketPool, max_idle 0-3, idle_timeout 1-90s, 1-2 backends, 1-3 holder tasks with drawn scripts over get/put(new)/put(held)/close/sleep/stats, cleanup ticks on the fake clock, shutdown; exclusivity, staleness, idle bound, shutdown closure checked against the harness' own view of every connection.",
-		Real:        []string{"internal/loadbalancer WebSocketPool (instrumented)"}, Stub: []string{"connections (in-memory fake net.Conn)", "clock", "goroutine choice at sync seams"}, Assumptions: commonAssumptions,
-		ExpectProbes: []string{"pool-hit", "shutdown"},
+		Rule:        "Scenario wspool: the real WebSocketPool, max_idle 0-3, idle_timeout 1-90s, 1-2 backends, 1-3 holder tasks with drawn scripts over get/put(new)/put(held)/close/sleep/stats, cleanup ticks on the fake clock, shutdown; exclusivity, staleness, idle bound, shutdown closure checked against the harness' own view of every connection. Scenario sysws: an Upgrade session through the real server and every drawn plugin chain (logging, size_limit, gzip, headers, custom-auth, request-id in drawn order) to a scripted backend answering 101; both ends send drawn binary chunks (0-100KB) in a drawn interleaving with fragmentation and delays, one side closes at a drawn point; received stream == sent stream (prefix towards the closer), close propagates within 2 simulated minutes.",
+		Real:        append([]string{"internal/loadbalancer WebSocketPool (instrumented)"}, sysReal...), Stub: append([]string{"pooled connections (in-memory fake net.Conn)"}, sysStub...), Assumptions: commonAssumptions,
+		ExpectProbes: []string{"pool-hit", "shutdown", "tunnel-established"},
 	},
 	"C16": {
 		Level:     "exploration",
